@@ -685,6 +685,7 @@ def _tokenize(readline: Callable[[], str]) -> Iterator[TokenInfo]:
         state.move_next_line(readline)
 
         if state.end_progs:
+            state.continued = False  # a backslash-newline inside a replacement field is consumed by this line
             yield from handle_end_progs(state)
 
         elif state.parenlev == 0 and not state.continued:  # new statement
